@@ -103,7 +103,8 @@ def _show(r):
 
 LHS = ["x", "y", "z", "<p>g"]
 RHS = ["1", "1j", "<t>", "y", "z", "x + z", "y * z", "y + 1j", "z > 1", "<builtin>array(3)",
-       "<builtin>norm_2(y)", "<p>g", "<p>g + y", "<func>f(<t>, y)", "y[0]", "<builtin>isnan(z)"]
+       "<builtin>norm_2(y)", "<p>g", "<p>g + y", "<func>f(<t>, y)", "y[0]", "<builtin>isnan(z)",
+       "<builtin>matmul(y, z, 2, 2)"]
 LOOPED = [("x[i]", "1", [("i", "0", "3")]), ("y[i]", "z", [("i", "0", "3")])]
 
 
@@ -153,11 +154,14 @@ def make_stmt(spec, idx):
     return _STMT[key]
 
 
-def infer(presentation):
-    """presentation: list of (phase name, [statements]) in order.  Returns canonical outcome."""
+def infer(presentation, one_shot=False):
+    """presentation: list of (phase name, [statements]) in order.  Returns canonical outcome.
+    one_shot: each phase is handed over as an iterator that can be consumed once (as the Fortran generator does)."""
     from dagrt.data import SymbolKindFinder
     names = [p for p, _ in presentation]
     phases = [s for _, s in presentation]
+    if one_shot:
+        phases = [(x for x in s) for s in phases]
     buf = io.StringIO()
     try:
         with contextlib.redirect_stdout(buf):
@@ -198,6 +202,12 @@ def check_program(prog, acc=None):
             acc.evaluations += 1
         if base is None:
             base = (out, pres)
+            out1 = infer(pres, one_shot=True)
+            if acc is not None:
+                acc.evaluations += 1
+            if out1 != out and not (out1[0] == "exc" and out[0] == "exc"):
+                return ("one-shot-iterables:" + classify(out, out1), describe(prog, base, (out1, pres)).replace(
+                    "but presentation", "but with each phase given as a one-shot iterator, presentation")), base[0], n
             continue
         if out != base[0]:
             if out[0] == "exc" and base[0][0] == "exc":
@@ -260,7 +270,8 @@ def bounds(tier):
             "k<=3": "all subsets of the full menu",
             "k=4": "all 4-subsets of a core menu with %d right-hand sides" % (4 if tier == "quick" else 7),
             "k=5": "all 5-subsets of the 4-rhs core menu (thorough only)",
-            "presentations": "all permutations per phase x both phase orders",
+            "presentations": "all permutations per phase x both phase orders; the first presentation also with every phase "
+            "given as a one-shot iterator",
             "hash_seeds": [0] if tier == "quick" else [0, 1, 2, 3]}
 
 
